@@ -1,11 +1,11 @@
 """Transformation 10: rewrite the binary arithmetic operators of one statement into the trait calls they mean
-(`a * b` -> `core::ops::Mul::mul(a, b)`), keeping evaluation order and precedence.  Built by a small precedence
+(`a * b` -> `::core::ops::Mul::mul(a, b)`), keeping evaluation order and precedence.  Built by a small precedence
 parser over the statement's tokens; balanced groups are processed recursively.
 """
 from rustlex import Src
 
-TRAIT = {'+': 'core::ops::Add::add', '-': 'core::ops::Sub::sub', '*': 'core::ops::Mul::mul',
-         '/': 'core::ops::Div::div', '%': 'core::ops::Rem::rem'}
+TRAIT = {'+': '::core::ops::Add::add', '-': '::core::ops::Sub::sub', '*': '::core::ops::Mul::mul',
+         '/': '::core::ops::Div::div', '%': '::core::ops::Rem::rem'}
 PREC = {'*': 2, '/': 2, '%': 2, '+': 1, '-': 1}
 KEYWORDS = {'let', 'if', 'else', 'return', 'match', 'in', 'for', 'while', 'loop', 'mut', 'ref', 'move', 'break', 'continue'}
 SEPARATORS = {',', ';', '=', '=>', '<', '>', '==', '!=', '<=', '>=', '&&', '||', '..', '..=', '+=', '-=', '*=', '/=', '%=', ':', '|'}
